@@ -74,6 +74,8 @@ def enc(o: t.Any) -> t.Any:
         return {'$e': [type(o).__name__, o.name]}
     if type(o).__module__ == 'numpy' and type(o).__name__ == 'ndarray':
         return {'$nd': [str(o.dtype), enc(o.tolist())]}
+    if type(o) is usertypes.LoudStr:
+        return {'$u': ['loud', str.__str__(o)]}
     if type(o) in usertypes.SUBCLASSES.values():
         base = next(b for (b, c) in usertypes.SUBCLASSES.items() if c is type(o))
         return {'$u': [base, enc({'int': int, 'float': float, 'str': str, 'bytes': bytes}[base](o))]}
@@ -132,7 +134,7 @@ def dec(j: t.Any) -> t.Any:
             return numpy.array(dec(v[1]), dtype=v[0])
         if k == '$u':
             from . import usertypes
-            return usertypes.SUBCLASSES[v[0]](dec(v[1]))
+            return usertypes.LoudStr(v[1]) if v[0] == 'loud' else usertypes.SUBCLASSES[v[0]](dec(v[1]))
         if k == '$f':
             return float(v)
         if k == '$c':
